@@ -490,7 +490,13 @@ func (b *resourceHandler) applyDelete(r res.Resource) (interface{}, error) {
 		v := reflect.New(b.t)
 		err = json.Unmarshal(dta, v.Interface())
 		if err != nil {
-			return nil, err
+			if dta == nil {
+				return nil, err
+			}
+			// The resource is already deleted. Instead of returning an error,
+			// which would cancel the delete event, the raw JSON data is
+			// returned, same as the middleware package does.
+			return json.RawMessage(dta), nil
 		}
 		value = v.Elem().Interface()
 	}
